@@ -403,6 +403,15 @@ pub fn spaces(tier: Tier) -> Vec<Space<'static>> {
     }));
     sp.push(Space::new("wide (4-6 siblings over 5 kinds)", refmodel::gen::wide_count(), |i, acc| crate::checks::scale::wide_deep_doc(&refmodel::gen::wide_nth(i), acc, 2)));
     sp.push(Space::new("deep (4-6 levels, 5 sibling patterns per level)", refmodel::gen::deep_count(), |i, acc| crate::checks::scale::wide_deep_doc(&refmodel::gen::deep_nth(i), acc, 2)));
+    {
+        let sz = std::sync::Arc::new(crate::checks::scale::sizes(tier));
+        let n = sz.len() as u64 * crate::checks::scale::N_FAMILIES;
+        sp.push(Space::new("size sweep: every N up to the limit x 5 families", n, move |i, acc| {
+            let d = crate::checks::scale::sized_doc((i % crate::checks::scale::N_FAMILIES) as u8, sz[(i / crate::checks::scale::N_FAMILIES) as usize]);
+            crate::checks::scale::accessors(&d, acc)
+        }));
+        sp.push(Space::new("depth sweep: every depth 1..=300 x 3 shapes", 300, |i, acc| crate::checks::scale::depth_ops(i as usize + 1, acc, 2)));
+    }
     let sd = crate::checks::scale::docs().clone();
     sp.push(Space::new("scale (counts/lengths/offsets across 2^8, 2^16, 2^20)", sd.len() as u64, move |i, acc| crate::checks::scale::accessors(&sd[i as usize], acc)));
     if tier.thorough() {
